@@ -30,7 +30,13 @@ func registerProps() {
 		Real: txReal, Stub: txStub, Assume: txAssume,
 	})
 	reg(&propDef{
-		Parts: []*propDef{t2Part("C01T2", 400, 12000, "tier T2 confirmation: the generator of C03's T2 part; runs in which both engines return nil are judged: digest of the output directory (paths, types, sizes, SHA-256) = digest of the generated source tree")},
+		Parts: []*propDef{{ID: "C01H2", Pkg: "internal/transfer", Level: "exploration", Quick: 3000, Thorough: 150000, QuickWall: 4 * time.Minute, ThorWall: 25 * time.Minute,
+			Rule:   "one host process serving two receivers at once: two sender engines in the same simulated process (sharing its read pool and chunk buffer pools) each transfer their own tree (1-3 files of 1-6 chunks, chunk 64 B-1 KiB, 1-3 streams, 1-3 read-pool workers) to a receiver process of its own; in three quarters of the runs transfer 1 is cancelled at a drawn delivery (its receiver left), transfer 2 is never disturbed; seeded schedule over the generated yield points; oracle: if both ends of transfer 2 report success its tree equals its source",
+			Real:   txReal, Stub: txStub, Assume: txAssume},
+			{ID: "C01BIG", Pkg: "internal/transfer", Level: "exploration", Quick: 64, Thorough: 2000, QuickWall: 4 * time.Minute, ThorWall: 15 * time.Minute,
+				Rule:   "one file of 4 GiB + (1 byte ... two chunks), chunk size 1-4 MiB, as sparse files: source and partial output hold pseudo-random bytes only in the first chunk, the last chunk below 2^32 and everything above; the output directory is a prior state with every chunk below (or one chunk below) the 4 GiB mark present and marked in a sidecar written with the engine's own sidecar API, so only the chunks near and above 2^32 travel; 1-3 streams, hash algorithm drawn, seeded schedule; oracle: both ends succeed => same length and the same bytes in all non-hole regions",
+				Real:   txReal, Stub: txStub, Assume: append([]string{"the scratch file system supports sparse files"}, txAssume...)},
+			t2Part("C01T2", 400, 12000, "tier T2 confirmation: the generator of C03's T2 part; runs in which both engines return nil are judged: digest of the output directory (paths, types, sizes, SHA-256) = digest of the generated source tree")},
 		ID: "C01", Pkg: "internal/transfer", Level: "exploration",
 		Quick: 6000, Thorough: 300000, QuickWall: 5 * time.Minute, ThorWall: 40 * time.Minute,
 		Rule: "same generator as C03 (fault-free, all configurations and schedules); only runs in which both engines returned nil are judged (the others are counted as outside the property's scope); oracle: digest of the output directory = digest of the generated source tree, nothing else present except the resume-metadata directory",
